@@ -180,10 +180,10 @@ Proof.
   exists (mkProj 0 (-1) (-1) 0 0). cbn. repeat split; lra.
 Qed.
 
-(* ---- syntactic tie of the closed-form leaves to the current source (gen/SrcFuns.v is regenerated from the clang AST
+(* ---- syntactic tie of the closed-form leaves to the current source (gen/SrcFunsC03.v is regenerated from the clang AST
    of src/geodesy/LambertConverter.cpp and EarthEllipsoid.cpp on every run) ---- *)
-From Romea Require Import SrcTie.
-From Romea.gen Require Import SrcFuns.
+From Romea Require Import SrcTie SrcTieC03.
+From Romea.gen Require Import SrcFunsC03.
 
 Theorem C03_source_tie_isometric_latitude : forall lat e,
   src_isometricLatitude ROps lat e = isometricLatitude ROps lat e.
@@ -206,7 +206,6 @@ Print Assumptions C03_source_tie_toLambert.
 
 (* the INVERSE map, loop included, and the constructor arithmetic: computeLatitude (for(;;) … break), toWGS84 and both
    computeProjectionParameters overloads regenerated from the clang AST are the model functions, for every fuel *)
-From Romea Require Import SrcTieLoops.
 Theorem C03_source_tie_inverse : forall fuel (pr : projection (T:=R)) e (v : vec2 (T:=R)) L,
   src_computeLatitude ROps fuel L e = computeLatitude ROps fuel L e /\
   src_lambertToWGS84 ROps fuel (p_c pr) e (p_lon0 pr) (p_n pr) (v2x v) (v2y v) (p_xs pr) (p_ys pr)
